@@ -34,7 +34,7 @@ type inScenario struct {
 	Pass   []string   `json:"pass"`
 	Human  []string   `json:"human"` // applications tagged ~human
 	Hid    []string   `json:"hid"`   // applications whose endpoint is tagged ~hidden
-	View   string     `json:"view"` // plain | clustered | epa
+	View   string     `json:"view"`  // plain | clustered | epa
 	Text   bool       `json:"text"`
 	Views  []inView   `json:"views"` // further views of the same project (generated in the same run)
 	// Mermaid: also run the Mermaid integration generator on the model
